@@ -1,76 +1,109 @@
-"""U4 (shared by C06, C15, C18): magnitude heuristics inside the accepted range.
+"""U4 (shared by C06, C07, C15, C17, C18): magnitude heuristics inside the accepted range.
 
-A comparison of a parameter value with a literal threshold, followed by a rescale of that same value, is a unit
-guess.  When the threshold lies inside the declared [Min, Max] two accepted inputs on either side of it are
-interpreted in different units: the result then depends on the magnitude written, not on the quantity meant, and
-the response to the input is non-monotone across the threshold."""
+A comparison of a parameter value with a literal threshold, followed by a rescale of that same value by a literal
+factor, is a unit guess.  When a threshold lies inside the declared [Min, Max], two accepted inputs on either
+side of it are interpreted in different units: the result then depends on the magnitude written, not on the
+quantity meant, the value is silently altered, and the response to the input is non-monotone across the threshold."""
 from __future__ import annotations
 
 import ast
 from typing import List, Optional, Tuple
 
 from gxstat.atoms import AtomResolver
-from gxstat.registry import Unfolded
+from gxstat.registry import Unfolded, get_registry
 from gxstat.srcmodel import const_value, dotted_name, enclosing_class, norm
 
 NOT_RUNNABLE = ('AGSWellBores', 'SurfacePlantAGS', 'AGSEconomics', 'TOUGH2Reservoir')    # no witness possible offline
 
 
+def _thresholds(test: ast.AST, target_txt: str) -> List[Tuple[str, float]]:
+    """(operator as seen from the value, literal) for every comparison of target_txt with a numeric literal in test."""
+    out = []
+    for c in ast.walk(test):
+        if not isinstance(c, ast.Compare):
+            continue
+        items = [c.left] + list(c.comparators)
+        for i, op in enumerate(c.ops):
+            l, r = items[i], items[i + 1]
+            if not isinstance(op, (ast.Gt, ast.GtE, ast.Lt, ast.LtE)):
+                continue
+            okr, vr = const_value(r)
+            okl, vl = const_value(l)
+            name = {ast.Gt: '>', ast.GtE: '>=', ast.Lt: '<', ast.LtE: '<='}[type(op)]
+            flip = {'>': '<', '>=': '<=', '<': '>', '<=': '>='}
+            if norm(l) == target_txt and okr and isinstance(vr, (int, float)) and not isinstance(vr, bool):
+                out.append((name, vr))
+            elif norm(r) == target_txt and okl and isinstance(vl, (int, float)) and not isinstance(vl, bool):
+                out.append((flip[name], vl))
+    return out
+
+
 def heuristic_sites(repo):
+    reg = get_registry(repo)
     out = []
     for f in repo.all_functions():
         cls = f.cls.name if f.cls is not None else None
         res = AtomResolver(repo, cls)
         for n in ast.walk(f.node):
-            if not (isinstance(n, ast.If) and isinstance(n.test, ast.Compare) and len(n.test.ops) == 1):
+            if not isinstance(n, ast.If):
                 continue
-            op = n.test.ops[0]
-            if not isinstance(op, (ast.Gt, ast.GtE, ast.Lt, ast.LtE)):
-                continue
-            okc, thr = const_value(n.test.comparators[0])
-            if not okc or not isinstance(thr, (int, float)) or isinstance(thr, bool):
-                continue
-            left = n.test.left
-            base = left.value if isinstance(left, ast.Subscript) else left
-            key = dotted_name(base)
-            if not key or not key.endswith('.value'):
-                continue
-            lt = norm(left)
-            resc = None
             for st in n.body:
-                if isinstance(st, ast.Assign) and norm(st.targets[0]) == lt and isinstance(st.value, ast.BinOp) and \
-                        isinstance(st.value.op, (ast.Mult, ast.Div)):
-                    l, r = st.value.left, st.value.right
-                    okk, k = const_value(r)
-                    if norm(l) == lt and okk and isinstance(k, (int, float)) and k not in (0, 1):
-                        resc = (st, ('*' if isinstance(st.value.op, ast.Mult) else '/') + repr(k))
-            if resc is None:
-                continue
-            d = res.decl(key)
-            if d is None or not d.is_input:
-                continue
-            out.append((f, n, d, type(op).__name__, thr, resc, key))
+                if not (isinstance(st, ast.Assign) and isinstance(st.value, ast.BinOp) and isinstance(st.value.op, (ast.Mult, ast.Div))):
+                    continue
+                lt = norm(st.targets[0])
+                l, r = st.value.left, st.value.right
+                okk, k = const_value(r)
+                if not (norm(l) == lt and okk and isinstance(k, (int, float)) and k not in (0, 1)):
+                    okk, k = const_value(l)
+                    if not (norm(r) == lt and okk and isinstance(k, (int, float)) and k not in (0, 1) and isinstance(st.value.op, ast.Mult)):
+                        continue
+                ths = _thresholds(n.test, lt)
+                if not ths:
+                    continue
+                tgt = st.targets[0]
+                base = tgt.value if isinstance(tgt, ast.Subscript) else tgt
+                key = dotted_name(base)
+                if not key or not key.endswith('.value'):
+                    continue
+                d = res.decl(key)
+                if d is None and key.split('.')[0] in ('ParameterToModify', 'param', 'p'):
+                    # generic reader object: identified by a Name test in the same guard
+                    for c in ast.walk(n.test):
+                        if isinstance(c, ast.Compare) and len(c.ops) == 1 and isinstance(c.ops[0], ast.Eq) and \
+                                norm(c.left).endswith('.Name') and isinstance(c.comparators[0], ast.Constant):
+                            nm = c.comparators[0].value
+                            if cls:
+                                d = next((x for x in reg.class_decls(cls) if x.name == nm), None)
+                if d is None or not d.is_input:
+                    continue
+                how = ('*' if isinstance(st.value.op, ast.Mult) else '/') + repr(k)
+                out.append((f, n, d, ths, (st, how), key))
     return out
 
 
-def check_heuristics(ctx, rule: str, only_attrs=None, only_classes=None) -> int:
+def check_heuristics(ctx, rule: str, only_attrs=None, only_classes=None, only_functions=None) -> int:
     n = 0
-    for f, node, d, op, thr, (st, how), key in heuristic_sites(ctx.repo):
-        attr = key.split('.')[-2]
+    for f, node, d, ths, (st, how), key in heuristic_sites(ctx.repo):
+        attr = d.attr
         if only_attrs is not None and attr not in only_attrs:
+            continue
+        if only_classes is not None and (f.cls is None or f.cls.name not in only_classes):
+            continue
+        if only_functions is not None and f.name not in only_functions:
             continue
         lo, hi = d.get('Min'), d.get('Max')
         if isinstance(lo, Unfolded) or isinstance(hi, Unfolded) or lo is None or hi is None:
             continue
         n += 1
-        inside = (lo < thr <= hi) if op in ('Lt', 'LtE') else (lo <= thr < hi)
-        sym = {'Gt': '>', 'GtE': '>=', 'Lt': '<', 'LtE': '<='}[op]
-        k = f'{f.qualname}/{attr}{sym}{thr:g}->{how}'
+        inside = [(op, thr) for op, thr in ths if ((lo < thr <= hi) if op in ('<', '<=') else (lo <= thr < hi))]
+        cond = ' and '.join(f'{op}{thr:g}' for op, thr in ths)
+        k = f'{f.qualname}/{attr}{"&".join(f"{op}{thr:g}" for op, thr in ths)}->{how}'
         where = f'{f.module.rel}:{node.lineno}'
         if not inside:
-            ctx.ok(rule, k, where, f'threshold {thr:g} outside the accepted range [{lo}, {hi}] of {d.name!r}')
+            ctx.ok(rule, k, where, f'thresholds {cond} outside the accepted range [{lo}, {hi}] of {d.name!r}')
             continue
-        msg = (f'{d.name!r} accepts [{lo}, {hi}] but a value {sym} {thr:g} is silently rescaled ({how}) as if written in another unit: two '
+        thr = inside[0][1]
+        msg = (f'{d.name!r} accepts [{lo}, {hi}] but a value {cond} is silently rescaled ({how}) as if written in another unit: two '
                f'accepted inputs on either side of {thr:g} denote quantities that differ by the conversion factor, so results depend on the '
                f'magnitude written and respond non-monotonically across the threshold')
         if f.cls is not None and f.cls.name in NOT_RUNNABLE:
